@@ -1302,6 +1302,7 @@ Definition ph_Rdg : bytes := [47; 82; 47; 100; 47; 103]%N.   (* /R/d/g - the sta
 Definition ph_cfg : pcfg :=
   {| pc_reader := {| c_recursive := true; c_mask := WATCHDOG_ALL; c_root := ph_R; c_fix_ignored := true;
                      c_fix_movein := true; c_fix_simulate := true;
+                     c_fix_relabel := true;      (* irrelevant for this witness: no descriptor comes back under another path *)
                      c_fix_moveout := false;     (* the code before the repair of F10 *)
                      c_faults := [] |};
      pc_full := false; pc_filter := None; pc_delay := 5 |}.
@@ -1363,7 +1364,7 @@ Definition ex_world : world := {| w_fs := ex_fs; w_next_ino := 20 |}.
 
 Definition ex_C (recursive : bool) : cfg :=
   {| c_recursive := recursive; c_mask := WATCHDOG_ALL; c_root := ex_R; c_fix_ignored := true;
-     c_fix_movein := true; c_fix_simulate := true; c_fix_moveout := true; c_faults := [] |}.
+     c_fix_movein := true; c_fix_simulate := true; c_fix_relabel := true; c_fix_moveout := true; c_faults := [] |}.
 
 (* the state right after Inotify.__init__ *)
 Definition ex_state (recursive : bool) : rstate * kst :=
